@@ -1417,12 +1417,17 @@ class HasSemantics(metaclass=abc.ABCMeta):
         #  of Referable.parent as `UniqueIdShortNamespace`
         self.parent: Optional[Any] = None
         self._supplemental_semantic_id: ConstrainedList[Reference] = ConstrainedList(
-            [], item_add_hook=self._check_constraint_add)
+            [], item_add_hook=self._check_constraint_add, item_set_hook=self._check_constraint_set)
         self._semantic_id: Optional[Reference] = None
 
     def _check_constraint_add(self, _new: Reference, _list: List[Reference]) -> None:
         if self.semantic_id is None:
             raise AASConstraintViolation(118, "A semantic_id must be defined before adding a supplemental_semantic_id!")
+
+    def _check_constraint_set(self, _items_to_replace: List[Reference], new_items: List[Reference],
+                              _old_list: List[Reference]) -> None:
+        if self.semantic_id is None and len(new_items) > 0:
+            raise AASConstraintViolation(118, "A semantic_id must be defined before setting a supplemental_semantic_id!")
 
     @property
     def semantic_id(self) -> Optional[Reference]:
